@@ -31,6 +31,15 @@ func main() {
 		drv.Exit(replay(os.Args[2]))
 	case "C01", "C02", "C03", "C05", "C06", "C07", "C08":
 		drv.Exit(enga.Run(os.Args[1], tier()))
+	case "selftest":
+		n := 4
+		if len(os.Args) > 2 {
+			fmt.Sscan(os.Args[2], &n)
+		}
+		a, ia := enga.SelfTest(n)
+		c, ic := engc.SelfTest(n)
+		fmt.Printf("selftest: determinism held: engine A %d executions %v; engine C %d executions %v\n", a, ia, c, ic)
+		drv.Exit(drv.ExitOK)
 	case "C11":
 		drv.Exit(engb.Run(tier()))
 	case "C15":
